@@ -10,7 +10,7 @@
     Header entry points: C06. Stack bytes per level and time per step are measured by the check, not proved. *)
 From RB Require Import Base.Prelude Sig.Types Sig.Parser Sig.ParserProofs Sig.Validator Sig.ValidatorProofs Sig.Iter
   Wire.Value Wire.SpecEnc Wire.Marshal Wire.Decode Wire.Unmarshal Wire.Relabel Wire.Ops Wire.DecodeSoundLemmas Wire.DecodeTotal
-  Wire.HasSig Wire.HasSigProofs Wire.Body Wire.ParserTotal Wire.Limits Wire.LimitsProofs.
+  Wire.HasSig Wire.HasSigProofs Wire.Body Wire.ParserTotal Wire.Limits Wire.LimitsProofs Wire.LimitsBounds.
 
 (* raw validation: any bytes, any offset inside the buffer, any (well-formed) type, both byte orders *)
 Theorem C04_total_validate : forall be off buf t, wf t = true -> off <= len buf ->
@@ -92,3 +92,14 @@ Theorem C04_slice_alloc : forall be vf x c v c', valid_slice be (erase x) = true
   exists n, n <= MAX_ARRAY /\ uoff c + 4 + n <= uoff c' /\ uoff c' <= len (ubuf c).
 Proof. exact slice_alloc_bound. Qed.
 Print Assumptions C04_slice_alloc.
+
+(* resources, linear bounds. WANTED (DESIGN.md): steps <= 4 * |input| + K1, depth <= 64 + K2, alloc <= 2 * |input| + K3 for
+   every entry point and for failing runs too, on an instrumented model. PROVED (partial): whenever the Param decoder
+   returns a value, the value has at most as many nodes (base values, arrays, dicts, variants; a struct is its fields) as
+   bytes were consumed for it, and is nested at most 64 deep - so the Param tree built (one enum value per node, at most
+   64 struct nodes above each) and the recursive calls made for it are linear in the bytes consumed. Failing runs do
+   no more work than a successful run on the prefix they got through (not stated formally). *)
+Theorem C04_bounds_partial : forall be vf t c v c', uoff c <= len (ubuf c) -> unmarshal_p vf be t c = Ok (v, c') ->
+  vcount v <= uoff c' - uoff c /\ uoff c' <= len (ubuf c) /\ (vdepth v = 0 \/ udepth c + vdepth v <= MAX_DEPTH).
+Proof. exact param_decoder_bounds. Qed.
+Print Assumptions C04_bounds_partial.
